@@ -78,7 +78,7 @@ Definition search_matches (m : smethod) (needle : string) (haystack : pyval) : o
       do r <- re_search needle (py_str th);
       match r with
       | RMatch b => Ok b
-      | RError => Raise (PyCrash ReError)
+      | RError => Raise (YPE Generic)     (* re.error is wrapped into YAMLPathException (searches.py) *)
       end
   end.
 
